@@ -140,6 +140,10 @@ def run(key):
         data = y
     b = 0.0 if blur == 'onehot' else 0.4
     init = A.partition_affiliation(labels, K, blur=b, lead=lead)
+    if gk == 'f32':
+        data = tuple(np.asarray(x).astype(np.complex64 if np.iscomplexobj(x) else np.float32) for x in data) \
+            if integ else data.astype(np.float32)
+        init = init.astype(np.float32)
     opts = dict(weight_constant_axis=wca)
     try:
         m = M.fit(model, data, init, its, **opts)
@@ -169,7 +173,7 @@ def run(key):
             return viol(f'{model}: fit_predict: {wrong} of {mpf.size} observations are not assigned to their '
                         f'true class after {its} iterations')
     # parameters point at the prototypes
-    limit_tight = 10 * pert + 1e-6
+    limit_tight = 10 * pert + (1e-3 if gk == 'f32' else 1e-6)
     worst = 0.0
     sizes = class_sizes(K, D, sk)
     # a blurred start keeps class k's own prototype dominant in its first M-step only if
@@ -233,14 +237,23 @@ def subchecks(tier, seed):
                     if model in ('cacgmm', 'cwmm', 'cbmm', 'gcacgmm', 'vmfcacgmm') and D < 2:
                         continue
                     for pk in ('canonical', 'rotated', 'cos0.3'):
-                        perts = (1e-3, 1e-2) if model in ('gmm', 'gcacgmm', 'cbmm') else (0.0, 1e-3, 1e-2)
+                        perts = (1e-3, 1e-2) if model == 'cbmm' else (1e-9, 1e-3, 1e-2) if model in ('gmm', 'gcacgmm') \
+                            else (0.0, 1e-3, 1e-2)
                         for pert in perts:
                             for sk in ('equal', 'unequal'):
                                 gks = ('one',) if model == 'gmm' else ('one', 'phasor', 'mag', 'extreme')
+                                if model in ('vmfmm', 'vmfcacgmm'):
+                                    gks = gks + ('f32',)      # single-precision observations and start
                                 for gk in gks:
                                     if model == 'vmfmm' and gk == 'phasor':
                                         continue
+                                    if gk == 'f32' and pert == 0.0:
+                                        continue     # exactly collinear classes are degenerate in single precision
                                     for blur in ('onehot', 'blur'):
+                                        if pert == 1e-9 and blur != 'onehot':
+                                            # a blurred class covariance has condition number (1/pert)^2 = 1e18:
+                                            # not representable in double precision
+                                            continue
                                         for its in (1, 2, 5, 20):
                                             wcas = ((-1,), (-3,)) if integ else ((-1,), (-3,))
                                             for wca in wcas:
